@@ -162,7 +162,29 @@ func runExtractCase(carBin string, c *xfCase, base string, form int) (string, st
 	}
 	bs := newBlockSet()
 	var roots []cid.Cid
-	if form == 1 && len(c.Arch) > 1 {
+	hasFileRoot := false
+	for _, e := range c.Arch {
+		hasFileRoot = hasFileRoot || e.K == "froot"
+	}
+	if hasFileRoot {
+		// the items between two file roots are the entries of one directory root
+		var run []xfEntry
+		flush := func() {
+			if len(run) > 0 {
+				roots = append(roots, bs.dir(xfLinks(bs, run, w)).Cid)
+				run = nil
+			}
+		}
+		for _, e := range c.Arch {
+			if e.K == "froot" {
+				flush()
+				roots = append(roots, bs.file([]byte("DATA")).Cid)
+			} else {
+				run = append(run, e)
+			}
+		}
+		flush()
+	} else if form == 1 && len(c.Arch) > 1 {
 		// two roots: the first entry alone, then the rest
 		r1 := bs.dir(xfLinks(bs, c.Arch[:1], w))
 		r2 := bs.dir(xfLinks(bs, c.Arch[1:], w))
@@ -240,6 +262,15 @@ func runExtractCase(carBin string, c *xfCase, base string, form int) (string, st
 	return "", "", ds
 }
 
+func hasFroot(c *xfCase) bool {
+	for _, e := range c.Arch {
+		if e.K == "froot" {
+			return true
+		}
+	}
+	return false
+}
+
 func runExtractReplay(args []string) int {
 	in, out, carBin := args[0], args[1], args[2]
 	rep := newReport("extract")
@@ -260,7 +291,7 @@ func runExtractReplay(args []string) int {
 					continue
 				}
 				for form := 0; form < 3; form++ {
-					if form == 1 && len(c.Arch) < 2 {
+					if form == 1 && (len(c.Arch) < 2 || hasFroot(&c)) {
 						continue
 					}
 					cls, msg, drift := runExtractCase(carBin, &c, base, form)
